@@ -188,6 +188,31 @@ Fixpoint tmsg (discard : bool) (rem : nat) (fs : list fld) {struct rem} : outcom
           rem' fs ints_empty ints_empty
   end.
 
+(* ---------------------------------------------------------------- nesting
+   The number of RecursionLimit units a message body needs.  protojson: one per message, and the
+   bracket nesting of skipped values.  prototext: one per message, one per map entry, and the message
+   nesting of skipped values. *)
+Fixpoint fdepth_j (f : fld) : nat :=
+  match f with
+  | Known _ _ _ isnull children =>
+      if isnull then 0 else list_max (map (fun body => S (list_max (map fdepth_j body))) children)
+  | Unknown _ d => d
+  | Scan d => d
+  | ByNum => 0
+  end.
+Definition depth_j (fs : list fld) : nat := S (list_max (map fdepth_j fs)).
+
+Fixpoint fdepth_t (f : fld) : nat :=
+  match f with
+  | Known _ cls _ _ children =>
+      let below := list_max (map (fun body => S (list_max (map fdepth_t body))) children) in
+      match cls with CMap => S below | _ => below end
+  | Unknown _ d => d
+  | Scan _ => 0
+  | ByNum => 0
+  end.
+Definition depth_t (fs : list fld) : nat := S (list_max (map fdepth_t fs)).
+
 (* ---------------------------------------------------------------- prototext unmarshalAny
    google.protobuf.Any has a loop of its own (no seenNums): three kinds of field events. *)
 Inductive aev :=
